@@ -225,7 +225,7 @@ def run_check(tier, seed):
     if not ok:
         broken.append({'kind': 'harness-build', 'log': out[-3000:]})
         return finish(ev, PROP, findings, broken)
-    nh = 40 if quick else 400
+    nh = 30 if quick else 400
     evals = 0; nontriv = set(); samples = []; exprs = []; meta = []
     base = os.path.join(SCRATCH, 'c18-tree')
     try:
@@ -318,7 +318,10 @@ def run_check(tier, seed):
     ev.cov['rule'] = ('evaluations = requests sent through Server::handle_message (sizes of all 5 files read from the host after each); '
                       'distinct_nontrivial = distinct (operation, class within/change/neutral, errno, no_open, flag word or mode) seen on the sealed export')
     ev.cov['samples'] = samples
-    return finish(ev, PROP, dedup(findings), broken)
+    findings = dedup(findings)
+    for f in findings: f.setdefault('input', {}).update({'seed': seed, 'tier': tier})
+    for b in broken: b.update({'seed': seed, 'tier': tier})
+    return finish(ev, PROP, findings, broken)
 
 def dedup(findings):
     seen = {}; out = []
@@ -327,3 +330,15 @@ def dedup(findings):
         seen[k] = seen.get(k, 0) + 1
         if seen[k] <= 2: out.append(f)
     return out
+
+
+def replay(path):
+    """re-run the check with the seed and tier recorded in a replay file: the generated trees, requests and
+    (hash-based) directory cookies are functions of the seed, so the failing input is produced again"""
+    r = json.load(open(path))
+    items = r.get('failing') or r.get('broken') or []
+    seed, tier = 1, 'quick'
+    for it in items:
+        src = it.get('input', it)
+        if 'seed' in src: seed, tier = src['seed'], src['tier']; break
+    return run_check(tier, seed)
